@@ -9,6 +9,8 @@ import (
 	"crypto/x509"
 	"crypto/x509/pkix"
 	"math/big"
+	"os"
+	"path/filepath"
 	"sync"
 	"time"
 )
@@ -34,12 +36,36 @@ func RSAKey(name string) *rsa.PrivateKey {
 	if k, ok := rsaPool[name]; ok {
 		return k
 	}
+	// a helper process started by the harness reuses the parent's keys (VERIF_KEYDIR) instead of generating its own
+	if dir := os.Getenv("VERIF_KEYDIR"); dir != "" {
+		if b, err := os.ReadFile(filepath.Join(dir, "rsa-"+name+".der")); err == nil {
+			if k, err := x509.ParsePKCS1PrivateKey(b); err == nil {
+				rsaPool[name] = k
+				return k
+			}
+		}
+	}
 	k, err := rsa.GenerateKey(rand.Reader, 2048)
 	if err != nil {
 		panic(err)
 	}
 	rsaPool[name] = k
 	return k
+}
+
+// DumpKeys writes the RSA keys generated so far into dir for helper processes (see RSAKey).
+func DumpKeys(dir string) error {
+	rsaPoolMu.Lock()
+	defer rsaPoolMu.Unlock()
+	if err := os.MkdirAll(dir, 0o700); err != nil {
+		return err
+	}
+	for name, k := range rsaPool {
+		if err := os.WriteFile(filepath.Join(dir, "rsa-"+name+".der"), x509.MarshalPKCS1PrivateKey(k), 0o600); err != nil {
+			return err
+		}
+	}
+	return nil
 }
 
 // ECKey returns a cached P-256 key for a name.
